@@ -19,6 +19,14 @@ package sweep
 //     from createAndCheckTx (start of a tx creation attempt);
 //   - the wallet (c18Wallet) logs CheckMempoolAcceptance / PublishTransaction
 //     with the tx and gives the scripted answer;
+//   - the request is built by the REAL sweeper: the inputs are put into
+//     UtxoSweeper.inputs, then updateSweeperInputs + sweepPendingInputs run
+//     as they are (aggregator, wallet top-up, sweep()); the sweeper's
+//     Publisher is c18Bumper, which only captures the BumpRequest so that it
+//     can be handed to the real TxPublisher (storeInitialRecord) call by call.
+//     The Req line records the request as built next to the configuration
+//     (sweeper.maxfeerate in sat/vb) and the per-input budgets, deadlines,
+//     previous rates and unconfirmed-parent infos it was built from;
 //   - the handlers handleInitialBroadcast + initializeTx are unrolled into
 //     their four calls (initializeFeeFunction, createRBFCompliantTx,
 //     broadcast | handleInitialTxError, handleResult) so that the wrapper can
@@ -34,6 +42,7 @@ import (
 	"strings"
 	"testing"
 
+	"github.com/btcsuite/btcd/btcec/v2"
 	"github.com/btcsuite/btcd/btcutil/v2"
 	"github.com/btcsuite/btcd/chainhash/v2"
 	"github.com/btcsuite/btcd/wire/v2"
@@ -43,6 +52,7 @@ import (
 	"github.com/lightningnetwork/lnd/input"
 	"github.com/lightningnetwork/lnd/internal/verifkit"
 	"github.com/lightningnetwork/lnd/keychain"
+	"github.com/lightningnetwork/lnd/lntypes"
 	"github.com/lightningnetwork/lnd/lnwallet"
 	"github.com/lightningnetwork/lnd/lnwallet/chainfee"
 )
@@ -70,6 +80,13 @@ type c18Event struct {
 	Prevs []int64 `json:"prevs"`
 	// 1: group the inputs with the real BudgetAggregator, 0: one BudgetInputSet in the given order
 	Agg int `json:"agg"`
+	// the sweeper's configured maximum fee rate in sat/vb (0: MaxRate/250)
+	MaxVb int64 `json:"maxvb"`
+	// number of commitment anchor inputs (0/1) carrying unconfirmed-parent
+	// info: parent weight PW, parent fee PF
+	NA int   `json:"na"`
+	PW int64 `json:"pw"`
+	PF int64 `json:"pf"`
 }
 
 // ---------------------------------------------------------------- fakes
@@ -103,6 +120,55 @@ type c18Signer struct {
 
 func (s *c18Signer) ComputeInputScript(*wire.MsgTx, *input.SignDescriptor) (*input.Script, error) {
 	return &input.Script{Witness: wire.TxWitness{make([]byte, 72), make([]byte, 33)}}, nil
+}
+
+type c18Sig struct{}
+
+func (c18Sig) Serialize() []byte                    { return make([]byte, 72) }
+func (c18Sig) Verify([]byte, *btcec.PublicKey) bool { return true }
+
+func (s *c18Signer) SignOutputRaw(*wire.MsgTx, *input.SignDescriptor) (input.Signature, error) {
+	return c18Sig{}, nil
+}
+
+// c18Bumper is the sweeper's Publisher: it captures the requests the real
+// UtxoSweeper.sweep builds (nothing is ever sent on the result channel).
+type c18Bumper struct {
+	reqs []*BumpRequest
+}
+
+func (b *c18Bumper) Broadcast(req *BumpRequest) <-chan *BumpResult {
+	b.reqs = append(b.reqs, req)
+	return make(chan *BumpResult)
+}
+
+// c18Agg is the sweeper's Aggregator: the real BudgetAggregator, or one real
+// BudgetInputSet of the pending inputs in the order they were offered.  It
+// remembers the sets it returned (the sweeper keeps them to itself).
+type c18Agg struct {
+	run  *c18Run
+	real UtxoAggregator
+	sets []InputSet
+}
+
+func (a *c18Agg) ClusterInputs(inputs InputsMap) []InputSet {
+	a.sets = nil
+	if a.real != nil {
+		a.sets = a.real.ClusterInputs(inputs)
+		return a.sets
+	}
+	var list []SweeperInput
+	for _, op := range a.run.order {
+		if pi, ok := inputs[op]; ok {
+			list = append(list, *pi)
+		}
+	}
+	bs, err := NewBudgetInputSet(list, a.run.deadline, fn.None[AuxSweeper]())
+	if err != nil {
+		return nil
+	}
+	a.sets = []InputSet{bs}
+	return a.sets
 }
 
 type c18Wallet struct {
@@ -267,9 +333,9 @@ type c18Run struct {
 
 	// the sweeper's side of a request: pending inputs, how they are grouped
 	sw       *UtxoSweeper
+	bumper   *c18Bumper
+	agg      *c18Agg
 	order    []wire.OutPoint
-	useAgg   bool
-	maxRate  int64
 	deadline int32
 	set      InputSet
 }
@@ -289,7 +355,8 @@ func (r *c18Run) base(a string) verifkit.Rec {
 		"weight": 1, "totalin": 0, "reqout": 0, "dust": 0, "deadline": 0, "height": 0, "nin": 0,
 		"maxallowed": 0, "live": 0, "start": 0, "end": 0, "width": 0, "pos": 0, "cur": 0, "delta": 0,
 		"inc": 0, "err": "none", "rate": 0, "fee": 0, "change": 0, "nout": 0, "outs": [][]int64{},
-		"ins": []int{}, "ans": "", "event": "", "wallet": 0, "prevs": []int64{}}
+		"ins": []int{}, "ans": "", "event": "", "wallet": 0, "prevs": []int64{}, "cfgvb": 0,
+		"budgets": []int64{}, "deadlines": []int64{}, "parents": [][]int64{}}
 }
 
 func (r *c18Run) ffFields(rec verifkit.Rec, f *LinearFeeFunction) {
@@ -379,6 +446,20 @@ func (r *c18Run) mkInput(kind byte, value int64, reqOut int64) input.Input {
 	return bi
 }
 
+// mkAnchor is a commitment anchor input (330 sat) that carries the info of its
+// still unconfirmed parent, the way contractcourt offers it to CPFP a force
+// close.
+func (r *c18Run) mkAnchor(pweight, pfee int64) input.Input {
+	r.nin++
+	var h chainhash.Hash
+	h[0], h[1], h[31] = byte(r.nin), byte(r.nin>>8), 0xa1
+	bi := input.MakeBaseInput(&wire.OutPoint{Hash: h, Index: uint32(r.nin % 3)}, input.CommitmentAnchor,
+		&input.SignDescriptor{Output: &wire.TxOut{Value: 330, PkScript: c18Script('s', r.nin)}, KeyDesc: *c18Key,
+			WitnessScript: make([]byte, 40)}, 1,
+		&input.TxInfo{Fee: btcutil.Amount(pfee), Weight: lntypes.WeightUnit(pweight)})
+	return &bi
+}
+
 func (r *c18Run) newPublisher(est, relay int64, utxos []*lnwallet.Utxo) {
 	r.est = &c18Estimator{est: est, relay: relay}
 	r.wallet = &c18Wallet{run: r, utxos: utxos}
@@ -423,13 +504,26 @@ func (r *c18Run) install(a string, req *BumpRequest, nwallet int) {
 	rec["sopt"] = int64(req.StartingFeeRate.UnwrapOr(-1))
 	rec["nin"] = len(req.Inputs)
 	rec["wallet"] = nwallet
-	prevs := []int64{}
+	// what the request was built from: the sweeper's configuration and, per
+	// input of the set, the budget, the rate offered before and - for the
+	// inputs the sweeper was asked to sweep - the deadline
+	rec["cfgvb"] = int64(r.sw.cfg.MaxFeeRate)
+	prevs, budgets, deadlines, parents := []int64{}, []int64{}, []int64{}, [][]int64{}
 	if bs, ok := r.set.(*BudgetInputSet); ok {
 		for _, si := range bs.inputs {
 			prevs = append(prevs, int64(si.params.StartingFeeRate.UnwrapOr(0)))
+			budgets = append(budgets, int64(si.params.Budget))
+			if pi, ok := r.sw.inputs[si.OutPoint()]; ok {
+				deadlines = append(deadlines, int64(pi.DeadlineHeight))
+			}
 		}
 	}
-	rec["prevs"] = prevs
+	for _, in := range req.Inputs {
+		if p := in.UnconfParent(); p != nil {
+			parents = append(parents, []int64{int64(p.Weight), int64(p.Fee)})
+		}
+	}
+	rec["prevs"], rec["budgets"], rec["deadlines"], rec["parents"] = prevs, budgets, deadlines, parents
 	r.out.Emit(rec)
 }
 
@@ -437,7 +531,7 @@ func (r *c18Run) install(a string, req *BumpRequest, nwallet int) {
 // input was swept before on its own and that sweep failed handing back the
 // rate prev - recorded the way the sweeper records it.
 func (r *c18Run) offer(in input.Input, budget int64, prev int64) {
-	pi := &SweeperInput{Input: in, state: Published, params: Params{Budget: btcutil.Amount(budget),
+	pi := &SweeperInput{Input: in, state: Init, params: Params{Budget: btcutil.Amount(budget),
 		DeadlineHeight: fn.Some(r.deadline)}, DeadlineHeight: r.deadline}
 	r.sw.inputs[in.OutPoint()] = pi
 	r.order = append(r.order, in.OutPoint())
@@ -446,59 +540,89 @@ func (r *c18Run) offer(in input.Input, budget int64, prev int64) {
 		if err != nil {
 			r.t.Fatal(err)
 		}
+		pi.state = Published
 		r.sw.markInputsPublishFailed(one, chainfee.SatPerKWeight(prev))
 	}
 }
 
-// regroup is UtxoSweeper.sweepPendingInputs + sweep up to the BumpRequest:
-// cluster the pending inputs (real BudgetAggregator, or one real
-// BudgetInputSet in the order offered), top up from the wallet, mark the
-// inputs pending, build the request from the set.
+// regroup is one round of the sweeper's collector: the REAL
+// updateSweeperInputs + sweepPendingInputs (cluster the pending inputs, top up
+// from the wallet, UtxoSweeper.sweep: build the BumpRequest from the
+// configuration and the set, mark the inputs pending, Broadcast).  The request
+// the sweeper handed to its Publisher is returned together with its set.
 func (r *c18Run) regroup() (*BumpRequest, int, bool) {
-	var set InputSet
-	if r.useAgg {
-		sets := NewBudgetAggregator(r.est, 100, fn.None[AuxSweeper]()).ClusterInputs(r.sw.inputs)
-		if len(sets) == 0 {
-			return nil, 0, false
+	r.bumper.reqs, r.agg.sets = nil, nil
+	r.sw.sweepPendingInputs(r.sw.updateSweeperInputs())
+	if len(r.bumper.reqs) == 0 || len(r.bumper.reqs[0].Inputs) == 0 {
+		return nil, 0, false
+	}
+	req := r.bumper.reqs[0]
+	r.set = nil
+	for _, set := range r.agg.sets {
+		if ins := set.Inputs(); len(ins) > 0 && ins[0].OutPoint() == req.Inputs[0].OutPoint() {
+			r.set = set
 		}
-		set = sets[0]
-	} else {
-		var list []SweeperInput
-		for _, op := range r.order {
-			list = append(list, *r.sw.inputs[op])
-		}
-		bs, err := NewBudgetInputSet(list, r.deadline, fn.None[AuxSweeper]())
-		if err != nil {
-			r.t.Fatal(err)
-		}
-		set = bs
+	}
+	if r.set == nil {
+		return nil, 0, false
 	}
 	nwallet := 0
-	if set.NeedWalletInput() {
-		before := len(set.Inputs())
-		if err := set.AddWalletInputs(r.wallet); err != nil {
-			return nil, 0, false
+	for _, in := range req.Inputs {
+		if _, ok := r.sw.inputs[in.OutPoint()]; !ok {
+			nwallet++
 		}
-		nwallet = len(set.Inputs()) - before
 	}
-	r.sw.markInputsPendingPublish(set)
-	r.set = set
-	return &BumpRequest{
-		Inputs:          set.Inputs(),
-		Budget:          set.Budget(),
-		DeadlineHeight:  set.DeadlineHeight(),
-		DeliveryAddress: lnwallet.AddrWithKey{DeliveryAddress: r.change},
-		MaxFeeRate:      chainfee.SatPerKWeight(r.maxRate),
-		StartingFeeRate: set.StartingFeeRate(),
-	}, nwallet, true
+	return req, nwallet, true
 }
 
-func (r *c18Run) newSweeper(deadline int64, maxRate int64, useAgg bool) {
-	r.sw = New(&UtxoSweeperConfig{})
+// dryRegroup is regroup on a copy of the sweeper's input states: what request
+// would the sweeper build now?  (The free driver uses it to put a budget on a
+// rounding boundary of the set's real weight before the real round.)
+func (r *c18Run) dryRegroup() (*BumpRequest, bool) {
+	snap := map[wire.OutPoint]SweeperInput{}
+	for op, pi := range r.sw.inputs {
+		snap[op] = *pi
+	}
+	script := r.sw.currentOutputScript
+	req, _, ok := r.regroup()
+	for op, pi := range snap {
+		*r.sw.inputs[op] = pi
+	}
+	r.sw.currentOutputScript = script
+	r.set = nil
+	return req, ok
+}
+
+// newSweeper is a UtxoSweeper configured with a maximum fee rate (sat/vb, the
+// unit of sweeper.maxfeerate), the real aggregator (or the fixed-order one),
+// the scripted wallet and the capturing publisher.
+func (r *c18Run) newSweeper(deadline int64, maxVb int64, useAgg bool) {
+	if r.sw != nil {
+		close(r.sw.quit) // ends the monitorFeeBumpResult goroutines of the previous one
+	}
+	r.bumper = &c18Bumper{}
+	r.agg = &c18Agg{run: r}
+	if useAgg {
+		r.agg.real = NewBudgetAggregator(r.est, 100, fn.None[AuxSweeper]())
+	}
+	r.sw = New(&UtxoSweeperConfig{
+		GenSweepScript: func() fn.Result[lnwallet.AddrWithKey] {
+			return fn.Ok(lnwallet.AddrWithKey{DeliveryAddress: r.change})
+		},
+		FeeEstimator:         r.est,
+		Wallet:               r.wallet,
+		Signer:               &c18Signer{},
+		MaxInputsPerTx:       100,
+		MaxFeeRate:           chainfee.SatPerVByte(maxVb),
+		Aggregator:           r.agg,
+		Publisher:            r.bumper,
+		NoDeadlineConfTarget: 1008,
+	})
+	r.sw.currentHeight = int32(deadline) - 1
 	r.order = nil
 	r.set = nil
 	r.rec, r.req, r.lastRes = nil, nil, nil
-	r.deadline, r.maxRate, r.useAgg = int32(deadline), maxRate, useAgg
+	r.deadline = int32(deadline)
 }
 
 // doReq offers the inputs of a generated schedule to the sweeper (the model
@@ -512,13 +636,16 @@ func (r *c18Run) doReq(ev c18Event) {
 		n = 1
 		ev.NK = 1
 	}
-	r.newSweeper(ev.Deadline, ev.MaxRate, ev.Agg == 1)
+	if ev.MaxVb == 0 {
+		ev.MaxVb = ev.MaxRate / 250 // schedules that give the maximum in sat/kw
+	}
+	r.newSweeper(ev.Deadline, ev.MaxVb, ev.Agg == 1)
 	ck := byte('k')
 	if ev.Dust == 330 {
 		ck = 't'
 	}
 	r.change = c18Script(ck, 0x7777)
-	total := ev.NR + n
+	total := ev.NR + n + ev.NA
 	prev := func(i int) int64 {
 		if i < len(ev.Prevs) {
 			return ev.Prevs[i]
@@ -535,7 +662,7 @@ func (r *c18Run) doReq(ev c18Event) {
 		}
 		return b
 	}
-	left := ev.TotalIn
+	left := ev.TotalIn - 330*int64(ev.NA)
 	for i := 0; i < ev.NR; i++ {
 		v := ev.ReqOut / int64(ev.NR)
 		if i == 0 {
@@ -554,6 +681,9 @@ func (r *c18Run) doReq(ev c18Event) {
 			k = 't'
 		}
 		r.offer(r.mkInput(k, v, -1), bud(ev.NR+i), prev(ev.NR+i))
+	}
+	for i := 0; i < ev.NA; i++ {
+		r.offer(r.mkAnchor(ev.PW, ev.PF), bud(ev.NR+n+i), prev(ev.NR+n+i))
 	}
 	req, nwallet, ok := r.regroup()
 	if !ok {
@@ -576,14 +706,10 @@ func (r *c18Run) doRetry() {
 	// the sweeper records the rate on every input of the failed set and groups
 	// its pending inputs again
 	r.sw.markInputsPublishFailed(r.set, r.lastRes.FeeRate)
-	budget := r.req.Budget
 	req, nwallet, ok := r.regroup()
 	if !ok {
 		r.rec = nil
 		return
-	}
-	if req.Budget == r.set.Budget() && len(req.Inputs) == len(r.req.Inputs) {
-		req.Budget = budget // keep a budget the driver had put on a rounding boundary
 	}
 	r.install("Retry", req, nwallet)
 }
@@ -896,7 +1022,7 @@ func (r *c18Run) freePub(rng *rand.Rand, i int, all bool) {
 	h0 := int64(700000 + rng.Intn(1000))
 	ct0 := c18Pick(rng, 0, 1, 2, 3, 4, 6, 10, 25, 144, 1007, 1008, 1010)
 	deadline := h0 + ct0
-	maxRate := c18Pick(rng, 250000, 250000, 250000, 2500, 20000, 1900000)
+	maxVb := c18Pick(rng, 1000, 1000, 1000, 10, 80, 7600) // sweeper.maxfeerate in sat/vb; 1000 is lnd's default
 
 	// wallet utxos for top-ups
 	var utxos []*lnwallet.Utxo
@@ -927,7 +1053,7 @@ func (r *c18Run) freePub(rng *rand.Rand, i int, all bool) {
 			nnorm = 0
 		}
 	}
-	r.newSweeper(deadline, maxRate, true)
+	r.newSweeper(deadline, maxVb, true)
 	// the rate an input was offered before (a failed sweep of its own): none for
 	// most, otherwise anything from the relay fee to far above the new ceiling
 	prevRate := func() int64 {
@@ -1007,6 +1133,61 @@ func (r *c18Run) freePub(rng *rand.Rand, i int, all bool) {
 		add(r.mkInput('k', v, v), b)
 	}
 
+	// an anchor that carries the info of its unconfirmed parent (CPFP of a force
+	// close): the parent pays nothing, less than the relay fee, a rate inside
+	// the ramp, or more than the maximum
+	if !tuned && rng.Intn(3) == 0 {
+		pw := c18Pick(rng, 724, 1116, 2500, 9000)
+		prate := c18Pick(rng, 0, relay/2, relay+rng.Int63n(3000), 250*maxVb/2, 250*maxVb+1000)
+		pf := int64(chainfee.SatPerKWeight(prate).FeeForWeight(lntypes.WeightUnit(pw)))
+		add(r.mkAnchor(pw, pf), c18Pick(rng, 2000, 50000, 400000)+rng.Int63n(1000))
+	}
+
+	// what would the sweeper build now?  Used to move the budget of one input
+	// so that the set's budget falls on a rounding boundary of budget/weight.
+	req0, ok := r.dryRegroup()
+	if !ok {
+		return
+	}
+	w0, err := calcSweepTxWeight(req0.Inputs, [][]byte{r.change})
+	if err != nil {
+		r.t.Fatal(err)
+	}
+	want := *req0
+	// keep within the arithmetic range of the validator: rates <= 2*10^6 sat/kw
+	if lim := btcutil.Amount(1900 * int64(w0)); want.Budget > lim {
+		want.Budget = lim
+	}
+	// budgets on the rounding boundaries of budget/weight
+	if !tuned && rng.Intn(3) == 0 {
+		rate := relay + rng.Int63n(300000)
+		want.Budget = chainfee.SatPerKWeight(rate).FeeForWeight(w0) + btcutil.Amount(rng.Intn(int(w0)/1000+3))
+	}
+	if !all {
+		// the main domain: the ending rate the code computes is payable (see
+		// SweepFee.tla, deviations)
+		for k := 0; k < 50; k++ {
+			a, _ := want.MaxFeeRateAllowed()
+			if a.FeeForWeight(w0) <= want.Budget {
+				break
+			}
+			want.Budget++
+		}
+	}
+	if delta := want.Budget - req0.Budget; delta != 0 {
+		// the pending input with the largest budget takes the difference
+		var big *SweeperInput
+		for _, in := range req0.Inputs {
+			if pi, ok := r.sw.inputs[in.OutPoint()]; ok && (big == nil || pi.params.Budget > big.params.Budget) {
+				big = pi
+			}
+		}
+		if big == nil || big.params.Budget+delta < 1 {
+			return
+		}
+		big.params.Budget += delta
+	}
+
 	req, nwallet, ok := r.regroup()
 	if !ok {
 		return
@@ -1015,26 +1196,14 @@ func (r *c18Run) freePub(rng *rand.Rand, i int, all bool) {
 	if err != nil {
 		r.t.Fatal(err)
 	}
-	// keep within the arithmetic range of the validator: rates <= 2*10^6 sat/kw
-	if lim := btcutil.Amount(1900 * int64(w)); req.Budget > lim {
-		req.Budget = lim
-	}
-	// budgets on the rounding boundaries of budget/weight
-	if !tuned && rng.Intn(3) == 0 {
-		rate := relay + rng.Int63n(300000)
-		req.Budget = chainfee.SatPerKWeight(rate).FeeForWeight(w) + btcutil.Amount(rng.Intn(int(w)/1000+3))
+	if req.Budget > btcutil.Amount(1900*int64(w)) {
+		return
 	}
 	if !all {
 		// the main domain: the ending rate the code computes is payable, and
 		// the floor is not above the ceiling (see SweepFee.tla, deviations)
-		for k := 0; k < 50; k++ {
-			a, _ := req.MaxFeeRateAllowed()
-			if a.FeeForWeight(w) <= req.Budget {
-				break
-			}
-			req.Budget++
-		}
-		if a, _ := req.MaxFeeRateAllowed(); int64(a) < relay {
+		a, _ := req.MaxFeeRateAllowed()
+		if a.FeeForWeight(w) > req.Budget || int64(a) < relay {
 			return
 		}
 	}
